@@ -5,12 +5,21 @@ PROPERTY = {
     'functions': [_Q + 'failed_line_offset', _Q + 'failed_lineno',
                   'xdoctest.parser:DoctestParser._package_groups#offsets', 'xdoctest.parser:DoctestParser._package_chunk',
                   'xdoctest.core:parse_freeform_docstr_examples#offsets', 'xdoctest.parser:DoctestParser.parse#items',
-                  'xdoctest.parser:DoctestParser.__init__', 'xdoctest.core:parse_freeform_docstr_examples.doctest_from_parts', 'xdoctest.doctest_example:DocTest.__init__', 'xdoctest.core:parse_freeform_docstr_examples.doctest_from_parts#call'],
+                  'xdoctest.parser:DoctestParser.__init__', 'xdoctest.core:parse_freeform_docstr_examples.doctest_from_parts', 'xdoctest.doctest_example:DocTest.__init__', 'xdoctest.core:parse_google_docstr_examples#blocks',
+                  'xdoctest.docstr.docscrape_google:split_google_docblocks', 'xdoctest.doctest_example:DocTest._parse', 'xdoctest.core:parse_freeform_docstr_examples.doctest_from_parts#call'],
     'clauses': {
         'P': ['failed_line_offset / failed_lineno: import failure -> the doctest line; got/want mismatch -> first line of the want '
               '(part offset + number of source lines); repr/await failure -> last source line; ordinary exception -> part offset + '
-              'traceback line - 1; None iff nothing failed; for every exception class'],
-        'T': ['tb_lineno / end_lineno produced by CPython'],
+              'traceback line - 1; None iff nothing failed; for every exception class',
+              '_package_groups: the line counter handed to _package_chunk is the number of lines of all earlier chunks; slice_example: a '
+              "part's line_offset is that counter plus the index of its first line in the chunk",
+              'parse_freeform_docstr_examples (asone): the doctest of a docstring is created with line = lineno + the number of docstring '
+              'lines (text lines, skipped special-block parts) before its first kept part; doctest_from_parts passes lineno + that '
+              'offset to DocTest(..); DocTest.__init__ stores line, index and text',
+              'parse_google_docstr_examples: a block labelled at offset o of the docstring becomes a doctest at line lineno + o + 1'],
+        'T': ['tb_lineno / end_lineno produced by CPython',
+              "the rebasing loop of doctest_from_parts (p.line_offset -= parts[0].line_offset) is dropped from the verified region (in-place "
+              "mutation of list elements); split_google_docblocks' offsets and the docstring start line found by static analysis are assumed"],
     },
-    'explanation': 'C08: offset arithmetic of the three failure kinds.',
+    'explanation': 'C08: offset arithmetic of the three failure kinds, and of the three places that assign line numbers while parsing.',
 }
